@@ -737,11 +737,19 @@ func AvgDistanceMatrix(metric int, treechan <-chan Trees) (matrix [][]float64, t
 	var ntrees int
 
 	for t := range treechan {
+		if t.Err != nil {
+			err = t.Err
+			return
+		}
 		if matrix == nil {
 			matrix, tips = t.Tree.ToDistanceMatrix(metric)
 		} else {
 			matrix2, tips2 = t.Tree.ToDistanceMatrix(metric)
 
+			if len(tips2) != len(tips) {
+				err = fmt.Errorf("trees do not have the same sets of tip names")
+				return
+			}
 			for i, tip := range tips {
 				if tip.Name() != tips2[i].Name() {
 					err = fmt.Errorf("trees do not have the same sets of tip names")
